@@ -127,6 +127,16 @@ func gobCanon(r *rec) func(string, []byte) string {
 	return func(p string, bb []byte) string {
 		lab := r.label(p, true)
 		lab = lab[strings.LastIndexByte(lab, '/')+1:]
+		if b := filepath.Base(p); len(bb) <= 8 && strings.Contains(b, ".gob.tmp-") {
+			// a truncated temporary representation: the same number of bytes of the model token
+			var v int
+			fmt.Sscanf(stripName(strings.TrimPrefix(b[:strings.Index(b, ".gob.tmp-")], ".")), "%x", &v)
+			tok := newTok(v)
+			if len(bb) < len(tok) {
+				tok = tok[:len(bb)]
+			}
+			return fmt.Sprintf("%x", tok)
+		}
 		if len(bb) <= 8 {
 			return fmt.Sprintf("%x", bb)
 		}
@@ -267,9 +277,12 @@ func oracle(r *vh.Run, o outcome) {
 			fail("leftover-not-named", "rollback failed, error does not name "+p)
 			return
 		}
-		if !allOld && !allNew && len(left) == 0 {
-			fail("partial-state-without-backup", "mixed directory and no backup left")
-			return
+		// an original that is neither in place nor replaced by the new file must survive in a backup
+		for n, v := range F0 {
+			if F1[n] != v && F1[n] != o.want[n] && len(left) == 0 {
+				fail("original-lost-without-backup", "previous file "+n+" is gone and no backup is left")
+				return
+			}
 		}
 		r.Count("class:rollback-step-failed")
 	}
